@@ -543,3 +543,34 @@ def literal_programs(chk):
                ["let x: [u8; %d] = 0x%s; let y: [u8; %d] = [%s]; let a: u8 = %s;" % (n, "".join("%02x" % b for b in bs), n, ", ".join(str(b) for b in bs), "1")]
         out.append(Prog("fn main() { %s }" % " ".join(body), [], "literal/bytes/%d" % n))
     return out
+
+
+# ----------------------------------------------------------------------------- long scopes
+def long_scope_programs(chk):
+    """many live bindings between a binding and its use (the environment is a nested product; the selector of a variable has
+    one step per binding that came after it): straight-line lets, with a block and a function in between"""
+    from checks.c08 import Prog
+    rng = chk.sub_rng("longscope")
+    out = []
+    for n in (10, 31, 32, 33, 62, 63, 64, 65, 70, 127, 128, 129, 200):
+        vals = [rng.randrange(256) for _ in range(n)]
+        lets = " ".join("let v%d: u8 = %d;" % (i, vals[i]) for i in range(n))
+        for j in sorted({0, 1, n // 2, max(n - 64, 0), max(n - 63, 0), n - 2, n - 1}):
+            p = Prog("fn main() { %s assert!(jet::eq_8(v%d, %d)); }" % (lets, j, vals[j]), [], "longscope/%d/%d" % (n, j))
+            p.expect = "ok"
+            p.fixed = []
+            out.append(p)
+        # the same inside a function whose parameters are the oldest bindings, and with a nested block in the middle
+        j = rng.randrange(n)
+        p = Prog("fn f(p0: u8, p1: u8) -> u8 { %s let r: u8 = jet::xor_8(jet::xor_8(p0, jet::left_rotate_8(1, p1)), v%d); r }\nfn main() { assert!(jet::eq_8(f(%d, %d), %d)); }"
+                 % (lets, j, 5, 9, 5 ^ 18 ^ vals[j]), [], "longscope-fn/%d" % n)
+        p.expect = "ok"
+        p.fixed = []
+        out.append(p)
+        h = n // 2
+        lets2 = " ".join("let v%d: u8 = %d;" % (i, vals[i]) for i in range(h)) + " let w: u8 = { " + " ".join("let v%d: u8 = %d;" % (i, vals[i]) for i in range(h, n)) + " jet::xor_8(v0, v%d) };" % (n - 1)
+        p = Prog("fn main() { %s assert!(jet::eq_8(w, %d)); assert!(jet::eq_8(v0, %d)); }" % (lets2, vals[0] ^ vals[n - 1], vals[0]), [], "longscope-block/%d" % n)
+        p.expect = "ok"
+        p.fixed = []
+        out.append(p)
+    return out
